@@ -7,7 +7,7 @@ Import ListNotations.
 From Mds Require Import Heapq.HeapqModel Cache.CacheSpec Cache.CacheModel.
 Local Open Scope Z_scope.
 
-Definition ok_event {K V} (rl : out V * evlog K V) : event K V := EOk (fst rl) (snd rl).
+
 
 (* the cache of the harness: int keys and values, == on keys, zero values 0 *)
 Definition runZ (hv : variant) (sizeOf : Z -> Z) (lim : Z) (ops : list (op Z Z)) : list (event Z Z) :=
